@@ -393,4 +393,23 @@ def r13_8(ctx: Ctx) -> RuleResult:
     return rr
 
 
-RULES = [r13_1, r13_2, r13_3, r13_4, r13_5, r13_6, r13_7, r13_8]
+def r13_9(ctx: Ctx) -> RuleResult:
+    """`and`, `or`, `not` are documented spellings of `&&`, `||`, `!`.  They stay operators when a parenthesis
+    follows directly: with the reconstructed master pattern, `not(`, `and(`, `or(` must lex like `!(`, `&&(`, `||(`
+    (the function rule `name(` must not take them)."""
+    rr = RuleResult("R13.9", "word operators directly followed by a parenthesis stay operators", floor=3)
+    lex = ctx.lexer
+    where = lex.compile_fn.loc()
+    for word, sym in (("and", "&&"), ("or", "||"), ("not", "!")):
+        a = [k for _r, k, _t in lex.classify(f"@.a {word}(@.b)")]
+        b = [k for _r, k, _t in lex.classify(f"@.a {sym}(@.b)")]
+        if a == b:
+            rr.ok(where, f"`{word}(` lexes like `{sym}(`")
+        else:
+            rr.bad(lex.compile_fn, lex.compile_fn.node, f"`{word}(` is lexed as {a} but `{sym}(` as {b}: `$[?{word}(@.a)]` "
+                   f"{'is a call of an undefined function' if 'FUNCTION' in ' '.join(a) else 'does not mean'} `$[?{sym}(@.a)]`",
+                   construct=f"`{word}(` is not `{sym}(`")
+    return rr
+
+
+RULES = [r13_1, r13_2, r13_3, r13_4, r13_5, r13_6, r13_7, r13_8, r13_9]
